@@ -1,8 +1,8 @@
 /-
 Source node (nodes/source.py) as an open automaton.  Process 0 is `behaviour`; processes 1, 2, …
 are `_push_item` sub-processes.  State indices: 0 SETUP, 1 GENERATING, 2 BLOCKED.
-Mirrors the code as it is, including the stale / unbound `out_edge_to_put` of the non-blocking
-FIRST_AVAILABLE branch (finding D5).
+Mirrors the code after the repair of the non-blocking FIRST_AVAILABLE branch (finding D5:
+`out_edge_to_put` is reset before every scan).
 -/
 import FsVerif.Model.Node.Common
 namespace FsVerif
@@ -38,7 +38,6 @@ structure SrcState where
   rr : Nat := 0
   subs : List PushProc := []
   item : Option Nat := none
-  stale : Option Nat := none            -- `out_edge_to_put` of the non-blocking FA branch
   clock : StateClock 3 := { cur := 0, last := none, tot := [0, 0, 0] }
   generated : Nat := 0
   discarded : Nat := 0
@@ -48,6 +47,9 @@ structure SrcState where
   dropped : List Nat := []
   openToks : List Nat := []             -- reserve tokens issued and neither used nor cancelled
   flagged : Bool := false               -- an impossible activation was offered
+  hand : List Nat := []                 -- ghost: the item the source has created and not yet put or dropped
+  now : Nat := 0
+  tStart : Option Nat := none           -- ghost: time of the first activation
   deriving Repr, Inhabited
 
 namespace SrcState
@@ -60,7 +62,7 @@ def itemName (s : SrcState) (i : Nat) : Nat := s.cfg.nodeIdx * 100000 + i
 def loopTop (s : SrcState) (t : Nat) (a : Ans) : SrcState × List Call :=
   let s1 := { s with clock := s.clock.update s.clock.cur t }
   match a.draws with
-  | d :: _ => ({ s1 with pc := .iatWait, item := none }, [.draw d])
+  | d :: _ => ({ s1 with pc := .iatWait, item := none }, [.draw d, .wait d])
   | [] => ({ s1 with pc := .dead, flagged := true }, [.bad])
 
 def crash (s : SrcState) (e : Err) (pre : List Call) : SrcState × List Call :=
@@ -97,14 +99,14 @@ def behaviour (s : SrcState) (t : Nat) (a : Ans) : SrcState × List Call :=
     match s.cfg.pol with
     | .const k =>
       if k < 0 ∨ k ≥ s.cfg.nout then s.crash .assertion []
-      else ({ s with clock := s.clock.update 0 t, pc := .setupWait }, [])
-    | _ => ({ s with clock := s.clock.update 0 t, pc := .setupWait }, [])
+      else ({ s with clock := s.clock.update 0 t, pc := .setupWait }, [.wait 0])
+    | _ => ({ s with clock := s.clock.update 0 t, pc := .setupWait }, [.wait 0])
   | .setupWait =>
     let s1 := { s with clock := s.clock.update 1 t }
     s1.loopTop t a
   | .iatWait =>
     let it := s.itemName (s.i + 1)
-    let s1 := { s with i := s.i + 1, generated := s.generated + 1, item := some it, created := s.created ++ [it] }
+    let s1 := { s with i := s.i + 1, generated := s.generated + 1, item := some it, created := s.created ++ [it], hand := [it] }
     match s.cfg.pol with
     | .fa =>
       if s.cfg.blocking then
@@ -113,11 +115,13 @@ def behaviour (s : SrcState) (t : Nat) (a : Ans) : SrcState × List Call :=
                    openToks := s1.openToks ++ toks }, reserveAll s.cfg.nout s1.nextTok)
       else
         let (calls, found) := scanCan a.cans s.cfg.nout
-        let target := match found with | some j => some j | none => s1.stale
-        match target with
-        | none => s1.crash .unbound calls
+        match found with
+        | none =>
+          let s2 := { s1 with discarded := s1.discarded + 1, dropped := s1.dropped ++ [it], hand := [] }
+          let (s3, c) := s2.loopTop t { a with cans := [] }
+          (s3, calls ++ c)
         | some j =>
-          let s2 := { s1 with stale := some j, clock := s1.clock.update 2 t }
+          let s2 := { s1 with clock := s1.clock.update 2 t }
           let (s3, c) := s2.spawnPush j it true
           (s3, calls ++ c)
     | _ =>
@@ -138,16 +142,16 @@ def behaviour (s : SrcState) (t : Nat) (a : Ans) : SrcState × List Call :=
               let (s4, c) := s2.spawnPush j it false
               (s4, c0 ++ [.can j true] ++ c)
             | false :: _ =>
-              let s3 := { s2 with discarded := s2.discarded + 1, dropped := s2.dropped ++ [it] }
+              let s3 := { s2 with discarded := s2.discarded + 1, dropped := s2.dropped ++ [it], hand := [] }
               let (s4, c) := s3.loopTop t { a with cans := [] }
               (s4, c0 ++ [.can j false] ++ c)
             | [] => ({ s2 with pc := .dead, flagged := true }, [.bad])
   | .faWait toks =>
-    match firstTrig toks a.trig, s.item with
-    | some idx, some it =>
+    match firstTrig toks a.trig, s.hand with
+    | some idx, it :: _ =>
       let tok := toks.getD idx 0
       let cancels := (others toks idx).map (fun p => Call.cp p.1 p.2)
-      let s1 := { s with clock := s.clock.update 1 t, pushed := s.pushed ++ [it],
+      let s1 := { s with clock := s.clock.update 1 t, pushed := s.pushed ++ [it], hand := [],
                          openToks := s.openToks.filter (fun x => !toks.contains x) }
       let (s2, c) := s1.loopTop t a
       (s2, cancels ++ [.put idx tok it] ++ c)
@@ -171,12 +175,17 @@ def pushStep (s : SrcState) (p : PushProc) (a : Ans) : SrcState × List Call :=
   | some tok =>
     if p.done ∨ !a.trig.contains tok then ({ s with flagged := true }, [.bad])
     else
-      let p' := { p with done := true }
-      ({ s with subs := s.subs.map (fun q => if q.ord = p.ord then p' else q), pushed := s.pushed ++ [p.item],
-                openToks := s.openToks.filter (· != tok) }, [.put p.edge tok p.item])
+      match s.hand with
+      | [] => ({ s with flagged := true }, [.bad])
+      | it :: _ =>
+        let p' := { p with done := true }
+        ({ s with subs := s.subs.map (fun q => if q.ord = p.ord then p' else q), pushed := s.pushed ++ [it], hand := [],
+                  openToks := s.openToks.filter (· != tok) }, [.put p.edge tok it])
 
 /-- one activation of process `proc` at time `t` -/
-def step (s : SrcState) (proc t : Nat) (a : Ans) : SrcState × List Call :=
+def step (s0 : SrcState) (proc t : Nat) (a : Ans) : SrcState × List Call :=
+  if t < s0.now then ({ s0 with flagged := true }, [.bad]) else
+  let s := { s0 with now := t, tStart := match s0.tStart with | some x => some x | none => some t }
   if proc = 0 then s.behaviour t a
   else match s.subs.find? (fun p => p.ord = proc) with
     | some p => s.pushStep p a
@@ -200,6 +209,8 @@ structure SinkState where
   got : List Nat := []                  -- ghost
   openToks : List Nat := []
   flagged : Bool := false
+  now : Nat := 0
+  gotAt : List (Nat × Nat) := []        -- ghost: (reception time, creation stamp) of every received item
   deriving Repr, Inhabited
 
 namespace SinkState
@@ -211,7 +222,9 @@ def arm (s : SinkState) (t : Nat) : SinkState × List Call :=
   ({ s with clock := s.clock.update 0 t, pc := some toks, nextTok := s.nextTok + s.nin, openToks := s.openToks ++ toks },
    (List.range s.nin).map (fun j => .rg j (s.nextTok + j)))
 
-def step (s : SinkState) (proc t : Nat) (a : Ans) : SinkState × List Call :=
+def step (s0 : SinkState) (proc t : Nat) (a : Ans) : SinkState × List Call :=
+  if t < s0.now then ({ s0 with flagged := true }, [.bad]) else
+  let s := { s0 with now := t }
   if proc ≠ 0 ∨ s.dead then ({ s with flagged := true }, [.bad]) else
   match s.pc with
   | none => s.arm t
@@ -221,6 +234,7 @@ def step (s : SinkState) (proc t : Nat) (a : Ans) : SinkState × List Call :=
       let tok := toks.getD idx 0
       let cancels := (others toks idx).map (fun p => Call.cg p.1 p.2)
       let s1 := { s with received := s.received + 1, cycle := s.cycle + (t - it.created), got := s.got ++ [it.id],
+                         gotAt := s.gotAt ++ [(t, it.created)],
                          openToks := s.openToks.filter (fun x => !toks.contains x) }
       let (s2, c) := s1.arm t
       (s2, cancels ++ [.get idx tok it.id] ++ c)
